@@ -208,7 +208,12 @@ CallBad(pre, a, e, g, stl, lst) ==
                                          {"C12"} \cup (IF forgot THEN {"C17"} ELSE {})}
     \cup {<<"C13", "C13_Step">>  : z \in IF C13_Step(pre, a, x) THEN {} ELSE {1}}
     \cup {<<"C13", "C13_Virgin">> : z \in IF C13_Virgin(pre, a, x, g) THEN {} ELSE {1}}
-    \cup {<<"C13", "shrink_raises">> : z \in IF C13_ShrinkNeverRaises(pre, a, x) THEN {} ELSE {1}}
+    \* a shrink that raises the capacity: when the table had tombstones and the
+    \* result is exactly the fresh table the constructive operator predicts, this
+    \* is finding F5 (its own facet, so that any other rise stays distinguishable)
+    \cup {<<"C13", IF pre.t > 0 /\ o.s = post THEN "shrink_raises_with_tombstones"
+                                             ELSE "shrink_raises">>
+             : z \in IF C13_ShrinkNeverRaises(pre, a, x) THEN {} ELSE {1}}
     \cup {<<"C15", "C15_Step">>  : z \in IF C15_Step(pre, a, x) THEN {} ELSE {1}}
     \cup {<<"C19", "C19_Step">>  : z \in IF C19_Step(pre, a, x) THEN {} ELSE {1}}
     \cup {<<"C20", "C20_Step">>  : z \in IF e.counts.hash <= HashBound(pre, a, x) THEN {} ELSE {1}}
